@@ -36,10 +36,11 @@ func runStopRace(c stopRaceCase, res *hx.Result) {
 	inFS := map[*sfs.Handle]int{}
 	var releasedInUse []string
 	park := map[string]string{"attach": "attach", "clone": "walk", "walk": "walk", "create": "create", "open": "opendir", "stat": "stat",
-		"mkdir": "opendir", "mkdir-openfails": "opendir", "mkdir-openfails-queued": "opendir", "stat-queued-clunkfails": "stat"}[c.Op]
+		"mkdir": "opendir", "mkdir-openfails": "opendir", "mkdir-openfails-queued": "opendir", "stat-queued-clunkfails": "stat",
+		"attach-flushed": "attach", "walk-flushed": "walk", "create-flushed": "create", "stat-manyfids-clunkfails": "stat"}[c.Op]
 	armed := false
 	fs.Decide = func(call string, h *sfs.Handle) sfs.Expect {
-		if call == "clunk" && c.Op == "stat-queued-clunkfails" {
+		if call == "clunk" && (c.Op == "stat-queued-clunkfails" || c.Op == "stat-manyfids-clunkfails") {
 			return sfs.Expect{Call: call, Out: "fail"}
 		}
 		if call == "opendir" && strings.HasPrefix(c.Op, "mkdir-openfails") {
@@ -96,16 +97,31 @@ func runStopRace(c stopRaceCase, res *hx.Result) {
 		fail("version", err)
 		return
 	}
-	if c.Op != "attach" {
+	if c.Op != "attach" && c.Op != "attach-flushed" {
 		if r, err := rt(1, p9p.MessageTattach{Fid: 0, Afid: p9p.NOFID, Uname: "u", Aname: "/"}); err != nil || r.Type != p9p.Rattach {
 			fail("attach", fmt.Errorf("%v %v", err, r))
 			return
 		}
 	}
+	if c.Op == "stat-manyfids-clunkfails" {
+		// several fids are bound when serving ends, and every release Stop makes reports an error
+		for nf := p9p.Fid(10); nf < 14; nf++ {
+			if r, err := rt(1, p9p.MessageTwalk{Fid: 0, Newfid: nf}); err != nil || r.Type != p9p.Rwalk {
+				fail("clone", fmt.Errorf("%v %v", err, r))
+				return
+			}
+		}
+	}
 	var m p9p.Message
 	switch c.Op {
-	case "attach":
+	case "attach", "attach-flushed":
 		m = p9p.MessageTattach{Fid: 0, Afid: p9p.NOFID, Uname: "u", Aname: "/"}
+	case "walk-flushed":
+		m = p9p.MessageTwalk{Fid: 0, Newfid: 1, Wnames: []string{"a"}}
+	case "create-flushed":
+		m = p9p.MessageTcreate{Fid: 0, Name: "f", Perm: 0644, Mode: p9p.ORDWR}
+	case "stat-manyfids-clunkfails":
+		m = p9p.MessageTstat{Fid: 0}
 	case "clone":
 		m = p9p.MessageTwalk{Fid: 0, Newfid: 1}
 	case "walk":
@@ -142,6 +158,14 @@ func runStopRace(c stopRaceCase, res *hx.Result) {
 		time.Sleep(3 * time.Millisecond)
 		ch.WriteFcall(bg, &p9p.Fcall{Type: p9p.Tstat, Tag: 4, Message: p9p.MessageTstat{Fid: 0}})
 		time.Sleep(5 * time.Millisecond)
+	}
+	if strings.HasSuffix(c.Op, "-flushed") {
+		// the request is flushed and the flush acknowledged while its handler is still unwinding (it returns Delay ms
+		// after its cancellation); then serving ends: Stop must still wait for that handler
+		if r, err := rt(5, p9p.MessageTflush{Oldtag: 2}); err != nil || r.Type != p9p.Rflush {
+			fail("flush", fmt.Errorf("%v %v", err, r))
+			return
+		}
 	}
 	switch c.Fault {
 	case "close":
@@ -207,7 +231,8 @@ func StopRace(args []string) {
 	res := hx.NewResult()
 	defer res.Write(*out)
 	var cases []stopRaceCase
-	for _, op := range []string{"attach", "clone", "walk", "create", "open", "stat", "mkdir", "mkdir-openfails", "mkdir-openfails-queued", "stat-queued-clunkfails"} {
+	for _, op := range []string{"attach", "clone", "walk", "create", "open", "stat", "mkdir", "mkdir-openfails", "mkdir-openfails-queued", "stat-queued-clunkfails",
+		"attach-flushed", "walk-flushed", "create-flushed", "stat-manyfids-clunkfails"} {
 		for _, f := range []string{"close", "ctx", "readerr"} {
 			for _, d := range []int{0, 15} {
 				cases = append(cases, stopRaceCase{op, f, d, false})
